@@ -28,14 +28,16 @@ UNPROVED = ["CONVERGENCE IS NOT PROVED: success within O(n) iterations on SPD / 
             "the degenerate-start theorems are over exact fields (any square-root function with sqrt 0 = 0); their f64 instances are covered by the tie and the search"]
 
 MANIFEST = dict(
-    text=("Theorems about the Gallina model of the four solvers (BiCG after the repair d2fe329): over any field, for every matrix given as a pair of linear "
-          "products, every size, tolerance >= 0 and budget, a guess with b - A x0 = 0 returns Ok 0 with x0 untouched, and so does a zero right-hand side with "
-          "a zero guess; the pre-repair BiCG is kept in coq/Legacy/C09Refuted.v with bicg_legacy_refuted (float instance: Err nan, x = nan on diag(2,3), "
-          "b=(2,3), x0=(1,1)). The convergence half (Ok within 3n+10 iterations on SPD / strictly diagonally dominant systems of condition <= 1e4, agreement "
-          "with the direct solution) is NOT proved: it is a failing-input search against numpy on order <= 60, with the float model tied to the "
-          "implementation on order <= 12."),
+    text=("Theorems about the Gallina model of the four solvers (BiCG after the repair d2fe329). Over any field, ANY square-root function with sqrt 0 = 0, "
+          "every matrix given as a linear product, every size, budget and tolerance >= 0: exact_guess_ok0 (b - A x0 = 0 => Ok 0, x0 untouched, all solvers, both "
+          "BiCG error measures) and zero_rhs_zero_guess_ok0. Over ANY arithmetic, floats included: startup_accepts (if the start-up residual the code forms "
+          "passes the code's test, Ok 0 with x0 untouched) and zero_budget_keeps_x. The pre-repair BiCG is kept in coq/Legacy/C09Refuted.v with "
+          "bicg_legacy_refuted (float instance: Err nan, x = nan on diag(2,3), b=(2,3), x0=(1,1)). The CONVERGENCE half (Ok within 3n+10 iterations on SPD / "
+          "strictly diagonally dominant systems of condition <= 1e4, agreement with the direct solution) is NOT proved: it is a failing-input search against "
+          "numpy on order <= 60, with the float model tied to the implementation on order <= 12. The search found a new failure class (exact Krylov "
+          "breakdowns of BiCG / BiCGSTAB / QMR on small-integer systems), recorded as three open findings keyed by the model's exit code."),
     note=("PARTIAL: only the degenerate-start half is a theorem. Convergence of floating-point Krylov iterations is searched, never proved; the iteration "
-          "constant 3n+10 and the attainability rule tol >= 10 n eps kappa are calibrated on the repaired tree."),
+          "constant 3n+10 (positive-diagonal SDD and SPD; 20n+100 for mixed-sign diagonals) and the attainability rule tol >= 10 n eps kappa are calibrated."),
     technique="Coq proof over an abstract field (degenerate starts) + float-model/implementation differential execution + numpy reference search (convergence)",
     design="7 (C09)")
 
@@ -62,8 +64,8 @@ def generate(rng, tier):
     quick = (tier == "quick")
     g = rng.fork("c09")
     maxn = 40 if quick else 60
-    nsmall = 70 if quick else 500
-    nbig = 40 if quick else 400
+    nsmall = 70 if quick else 400
+    nbig = 40 if quick else 300
     def emit(n, fam, tag, guess=None, rhs=None):
         ints = g.chance(1, 2)
         r = gen_system(g, n, fam, ints)
